@@ -174,8 +174,8 @@ func c01Cases(r *mon.Runner) []mon.CaseSpec {
 					rs = append(rs, c01RandSize(rnd, rndBits, mib-pd.wireHdr))
 				}
 				sizeCases("rnd", rs, 40)
-				// concurrent senders (duplex and one-way patterns): 2-4 goroutines per sending end
-				if pd.kind != kReqRep {
+				// concurrent senders: 2-4 goroutines per sending end (req/rep patterns: contexts)
+				{
 					for i := 0; i < nConc; i++ {
 						sp := base(tr, pd.name, mode)
 						sp.Set, sp.Shape = "conc", "conc"
